@@ -7,18 +7,18 @@ namespace Kmip.Mw
 @[simp] theorem St.log_trace (s : St) (e : Event) : (s.log e).trace = s.trace ++ [e] := rfl
 @[simp] theorem St.log_calls (s : St) (e : Event) : (s.log e).calls = s.calls := rfl
 
-theorem doCall_fst (next : Next) (id m c : Nat) (s : St) :
+theorem doCall_fst (next : Next) (id : Nat) (m : Msg) (c : Nat) (s : St) :
     (doCall next id m c s).1 = (next m c (s.log (.call id m c))).1 := rfl
 
-theorem doCall_snd (next : Next) (id m c : Nat) (s : St) :
+theorem doCall_snd (next : Next) (id : Nat) (m : Msg) (c : Nat) (s : St) :
     (doCall next id m c s).2
       = (next m c (s.log (.call id m c))).2.log (.back id (next m c (s.log (.call id m c))).1) := rfl
 
-theorem runStage_fst (next : Next) (st : Stage) (m c : Nat) (s : St) :
+theorem runStage_fst (next : Next) (st : Stage) (m : Msg) (c : Nat) (s : St) :
     (runStage next st m c s).1
       = (runActs next st.id st.body m c R.nil (s.log (.enter st.id m c))).1 := rfl
 
-theorem runStage_snd (next : Next) (st : Stage) (m c : Nat) (s : St) :
+theorem runStage_snd (next : Next) (st : Stage) (m : Msg) (c : Nat) (s : St) :
     (runStage next st m c s).2
       = (runActs next st.id st.body m c R.nil (s.log (.enter st.id m c))).2.log
           (.exit st.id (runStage next st m c s).1) := rfl
@@ -51,17 +51,25 @@ theorem nextFrom_eq_specNext (chain : List Stage) (core : Next) (i : Nat) :
 /-- a continuation whose only effect on the trace is to append one complete well-nested execution
     of the stages `ids` + core, which received what the continuation was given and returned what the
     continuation returns. -/
-def NextWN (cr : Out → R) (ids : List Nat) (next : Next) : Prop :=
-  ∀ m c s, ∃ tr, (next m c s).2.trace = s.trace ++ tr ∧ WN cr ids m c (next m c s).1 tr
+def NextWN (cs : Msg → Nat → R → List Event → Prop) (ids : List Nat) (next : Next) : Prop :=
+  ∀ m c s, ∃ tr, (next m c s).2.trace = s.trace ++ tr ∧ WN cs ids m c (next m c s).1 tr
 
 theorem coreRun_NextWN (k : Kind) (core : Core) (h : Nat) :
-    NextWN (coreResult k) [] (coreRun k core h) := by
+    NextWN (CoreSem k) [] (coreRun k core h) := by
   intro m c s
-  exact ⟨[.core s.calls m c h (core.outcome s.calls m)], rfl, WN.core _ _ _ _ _⟩
+  by_cases hr : routed k m.op = true
+  · refine ⟨[.core s.calls (handlerOf k m.op) m c h (core.outcome s.calls m.tok)], ?_, ?_⟩
+    · simp [coreRun, hr]
+    · refine WN.core _ _ _ _ (Or.inl ⟨hr, s.calls, h, core.outcome s.calls m.tok, rfl, ?_⟩)
+      simp [coreRun, hr]
+  · refine ⟨[], ?_, ?_⟩
+    · simp [coreRun, hr]
+    · refine WN.core _ _ _ _ (Or.inr ⟨by simpa using hr, rfl, ?_⟩)
+      simp [coreRun, hr]
 
-theorem doCall_trace {cr : Out → R} {ids : List Nat} {next : Next} (hn : NextWN cr ids next)
-    (id m c : Nat) (s : St) :
-    ∃ tr, WN cr ids m c (doCall next id m c s).1 tr ∧
+theorem doCall_trace {cs : Msg → Nat → R → List Event → Prop} {ids : List Nat} {next : Next}
+    (hn : NextWN cs ids next) (id : Nat) (m : Msg) (c : Nat) (s : St) :
+    ∃ tr, WN cs ids m c (doCall next id m c s).1 tr ∧
       (doCall next id m c s).2.trace
         = s.trace ++ (.call id m c :: tr ++ [.back id (doCall next id m c s).1]) := by
   obtain ⟨tr, htr, hwn⟩ := hn m c (s.log (.call id m c))
@@ -69,18 +77,19 @@ theorem doCall_trace {cr : Out → R} {ids : List Nat} {next : Next} (hn : NextW
   rw [doCall_snd, St.log_trace, htr, St.log_trace, doCall_fst]
   simp [List.append_assoc]
 
-theorem runActs_trace {cr : Out → R} {ids : List Nat} {next : Next} (hn : NextWN cr ids next)
-    (id : Nat) : ∀ (as : List Act) (m c : Nat) (last : R) (s : St),
-    ∃ parts : List (Nat × Nat × R × List Event),
-      (∀ p ∈ parts, WN cr ids p.1 p.2.1 p.2.2.1 p.2.2.2) ∧
+theorem runActs_trace {cs : Msg → Nat → R → List Event → Prop} {ids : List Nat} {next : Next}
+    (hn : NextWN cs ids next) (id : Nat) :
+    ∀ (as : List Act) (m : Msg) (c : Nat) (last : R) (s : St),
+    ∃ parts : List (Msg × Nat × R × List Event),
+      (∀ p ∈ parts, WN cs ids p.1 p.2.1 p.2.2.1 p.2.2.2) ∧
       (runActs next id as m c last s).2.trace = s.trace ++ segsOf id parts := by
   intro as
   induction as with
   | nil => intro m c last s; exact ⟨[], by simp, by simp [runActs, segsOf]⟩
   | cons a as ih =>
     intro m c last s
-    have hcall : ∃ parts : List (Nat × Nat × R × List Event),
-        (∀ p ∈ parts, WN cr ids p.1 p.2.1 p.2.2.1 p.2.2.2) ∧
+    have hcall : ∃ parts : List (Msg × Nat × R × List Event),
+        (∀ p ∈ parts, WN cs ids p.1 p.2.1 p.2.2.1 p.2.2.2) ∧
         (runActs next id as m c (doCall next id m c s).1 (doCall next id m c s).2).2.trace
           = s.trace ++ segsOf id parts := by
       obtain ⟨tr, hwn, htr⟩ := doCall_trace hn id m c s
@@ -93,7 +102,8 @@ theorem runActs_trace {cr : Out → R} {ids : List Nat} {next : Next} (hn : Next
       · rw [ht, htr]
         simp [segsOf, List.append_assoc]
     cases a with
-    | setMsg t => simpa [runActs] using ih (t.app m) c last s
+    | setMsg t => simpa [runActs] using ih { m with tok := t.app m.tok } c last s
+    | setOp o => simpa [runActs] using ih { m with op := o } c last s
     | setCtx t => simpa [runActs] using ih m (t.app c) last s
     | call => simpa [runActs] using hcall
     | callIfFail =>
@@ -110,8 +120,8 @@ theorem runActs_trace {cr : Out → R} {ids : List Nat} {next : Next} (hn : Next
       · simpa [runActs, hf] using ih m c last s
       · exact ⟨[], by simp, by simp [runActs, hf, segsOf]⟩
 
-theorem runStage_NextWN {cr : Out → R} {ids : List Nat} {next : Next} (hn : NextWN cr ids next)
-    (st : Stage) : NextWN cr (st.id :: ids) (runStage next st) := by
+theorem runStage_NextWN {cs : Msg → Nat → R → List Event → Prop} {ids : List Nat} {next : Next}
+    (hn : NextWN cs ids next) (st : Stage) : NextWN cs (st.id :: ids) (runStage next st) := by
   intro m c s
   obtain ⟨parts, hp, ht⟩ := runActs_trace hn st.id st.body m c R.nil (s.log (.enter st.id m c))
   refine ⟨.enter st.id m c :: segsOf st.id parts ++ [.exit st.id (runStage next st m c s).1], ?_, ?_⟩
@@ -121,7 +131,7 @@ theorem runStage_NextWN {cr : Out → R} {ids : List Nat} {next : Next} (hn : Ne
 
 theorem specNext_NextWN (k : Kind) (core : Core) (h : Nat) :
     ∀ chain : List Stage,
-      NextWN (coreResult k) (chain.map Stage.id) (specNext (coreRun k core h) chain) := by
+      NextWN (CoreSem k) (chain.map Stage.id) (specNext (coreRun k core h) chain) := by
   intro chain
   induction chain with
   | nil => exact coreRun_NextWN k core h
@@ -129,24 +139,28 @@ theorem specNext_NextWN (k : Kind) (core : Core) (h : Nat) :
 
 /-! ### call counts of straight-line chains -/
 
-/-- a continuation that invokes the innermost handler exactly `p` times, whatever it is given. -/
-def NextCount (p : Nat) (next : Next) : Prop :=
-  ∀ m c s, (next m c s).2.calls = s.calls + p ∧
+/-- a continuation that invokes a handler exactly `p` times when given a message requesting
+    operation `op`. -/
+def NextCount (op p : Nat) (next : Next) : Prop :=
+  ∀ m c s, m.op = op → (next m c s).2.calls = s.calls + p ∧
     coreEvents (next m c s).2.trace = coreEvents s.trace + p
 
 theorem coreEvents_append (a b : List Event) : coreEvents (a ++ b) = coreEvents a + coreEvents b := by
   simp [coreEvents, List.countP_append]
 
-theorem coreRun_NextCount (k : Kind) (core : Core) (h : Nat) : NextCount 1 (coreRun k core h) := by
-  intro m c s
+theorem coreRun_NextCount (k : Kind) (core : Core) (h op : Nat) (hr : routed k op = true) :
+    NextCount op 1 (coreRun k core h) := by
+  intro m c s hm
+  have hr' : routed k m.op = true := by rw [hm]; exact hr
   constructor
-  · rfl
-  · simp [coreRun, coreEvents, Event.isCore]
+  · simp [coreRun, hr']
+  · simp [coreRun, hr', coreEvents, Event.isCore]
 
-theorem doCall_count {p : Nat} {next : Next} (hn : NextCount p next) (id m c : Nat) (s : St) :
+theorem doCall_count {op p : Nat} {next : Next} (hn : NextCount op p next) (id : Nat) (m : Msg)
+    (c : Nat) (s : St) (hm : m.op = op) :
     (doCall next id m c s).2.calls = s.calls + p ∧
       coreEvents (doCall next id m c s).2.trace = coreEvents s.trace + p := by
-  obtain ⟨h1, h2⟩ := hn m c (s.log (.call id m c))
+  obtain ⟨h1, h2⟩ := hn m c (s.log (.call id m c)) hm
   rw [St.log_calls] at h1
   rw [St.log_trace, coreEvents_append] at h2
   constructor
@@ -154,34 +168,36 @@ theorem doCall_count {p : Nat} {next : Next} (hn : NextCount p next) (id m c : N
   · rw [doCall_snd, St.log_trace, coreEvents_append, h2]
     simp [coreEvents, Event.isCore]
 
-theorem runActs_count {p : Nat} {next : Next} (hn : NextCount p next) (id : Nat) :
-    ∀ (as : List Act), (∀ a ∈ as, a.straight = true) → ∀ (m c : Nat) (last : R) (s : St),
+theorem runActs_count {op p : Nat} {next : Next} (hn : NextCount op p next) (id : Nat) :
+    ∀ (as : List Act), (∀ a ∈ as, a.straight = true) →
+      ∀ (m : Msg) (c : Nat) (last : R) (s : St), m.op = op →
       (runActs next id as m c last s).2.calls = s.calls + callsBefore as * p ∧
       coreEvents (runActs next id as m c last s).2.trace
         = coreEvents s.trace + callsBefore as * p := by
   intro as
   induction as with
-  | nil => intro _ m c last s; simp [runActs, callsBefore]
+  | nil => intro _ m c last s _; simp [runActs, callsBefore]
   | cons a as ih =>
-    intro hs m c last s
+    intro hs m c last s hm
     have hs' : ∀ a ∈ as, a.straight = true := fun a h => hs a (List.mem_cons_of_mem _ h)
     cases a with
-    | setMsg t => simpa [runActs, callsBefore] using ih hs' (t.app m) c last s
-    | setCtx t => simpa [runActs, callsBefore] using ih hs' m (t.app c) last s
+    | setMsg t => simpa [runActs, callsBefore] using ih hs' { m with tok := t.app m.tok } c last s hm
+    | setCtx t => simpa [runActs, callsBefore] using ih hs' m (t.app c) last s hm
     | call =>
-      obtain ⟨h1, h2⟩ := doCall_count hn id m c s
-      obtain ⟨i1, i2⟩ := ih hs' m c (doCall next id m c s).1 (doCall next id m c s).2
+      obtain ⟨h1, h2⟩ := doCall_count hn id m c s hm
+      obtain ⟨i1, i2⟩ := ih hs' m c (doCall next id m c s).1 (doCall next id m c s).2 hm
       simp only [runActs, callsBefore, i1, i2, h1, h2, Nat.add_mul, Nat.one_mul]
       omega
     | ret rt => simp [runActs, callsBefore]
+    | setOp o => exact absurd (hs _ (List.mem_cons_self ..)) (by simp [Act.straight])
     | callIfFail => exact absurd (hs _ (List.mem_cons_self ..)) (by simp [Act.straight])
     | retIfFail rt => exact absurd (hs _ (List.mem_cons_self ..)) (by simp [Act.straight])
     | retIfOk rt => exact absurd (hs _ (List.mem_cons_self ..)) (by simp [Act.straight])
 
-theorem runStage_NextCount {p : Nat} {next : Next} (hn : NextCount p next) (st : Stage)
-    (hs : st.Straight) : NextCount (st.mult * p) (runStage next st) := by
-  intro m c s
-  obtain ⟨h1, h2⟩ := runActs_count hn st.id st.body hs m c R.nil (s.log (.enter st.id m c))
+theorem runStage_NextCount {op p : Nat} {next : Next} (hn : NextCount op p next) (st : Stage)
+    (hs : st.Straight) : NextCount op (st.mult * p) (runStage next st) := by
+  intro m c s hm
+  obtain ⟨h1, h2⟩ := runActs_count hn st.id st.body hs m c R.nil (s.log (.enter st.id m c)) hm
   rw [St.log_calls] at h1
   rw [St.log_trace, coreEvents_append] at h2
   constructor
@@ -189,12 +205,12 @@ theorem runStage_NextCount {p : Nat} {next : Next} (hn : NextCount p next) (st :
   · rw [runStage_snd, St.log_trace, coreEvents_append, h2, Stage.mult]
     simp [coreEvents, Event.isCore]
 
-theorem specNext_NextCount (k : Kind) (core : Core) (h : Nat) :
+theorem specNext_NextCount (k : Kind) (core : Core) (h op : Nat) (hr : routed k op = true) :
     ∀ chain : List Stage, (∀ st ∈ chain, st.Straight) →
-      NextCount (prodL (chain.map Stage.mult)) (specNext (coreRun k core h) chain) := by
+      NextCount op (prodL (chain.map Stage.mult)) (specNext (coreRun k core h) chain) := by
   intro chain
   induction chain with
-  | nil => intro _; exact coreRun_NextCount k core h
+  | nil => intro _; exact coreRun_NextCount k core h op hr
   | cons st rest ih =>
     intro hs
     exact runStage_NextCount (ih fun st h => hs st (List.mem_cons_of_mem _ h)) st
@@ -213,29 +229,31 @@ theorem coreInputs_append (a b : List Event) :
   | nil => rfl
   | cons e a ih => cases e <;> simp [coreInputs, ih]
 
-theorem runStage_pipe (next : Next) (p : Nat × Tr × Tr) (m c : Nat) (s : St) :
+theorem runStage_pipe (next : Next) (p : Nat × Tr × Nat × Tr) (m : Msg) (c : Nat) (s : St) :
     (runStage next (pipeStage p) m c s).2
-      = ((next (p.2.1.app m) (p.2.2.app c)
-            ((s.log (.enter p.1 m c)).log (.call p.1 (p.2.1.app m) (p.2.2.app c)))).2.log
+      = ((next (pipeMsg p m) (p.2.2.2.app c)
+            ((s.log (.enter p.1 m c)).log (.call p.1 (pipeMsg p m) (p.2.2.2.app c)))).2.log
           (.back p.1 (runStage next (pipeStage p) m c s).1)).log
           (.exit p.1 (runStage next (pipeStage p) m c s).1) := rfl
 
 theorem specNext_pipe (k : Kind) (core : Core) (h : Nat) :
-    ∀ (ps : List (Nat × Tr × Tr)) (m c : Nat) (s : St),
+    ∀ (ps : List (Nat × Tr × Nat × Tr)) (m : Msg) (c : Nat) (s : St),
       enters (specNext (coreRun k core h) (ps.map pipeStage) m c s).2.trace
         = enters s.trace ++ pipeEnters ps m c ∧
       coreInputs (specNext (coreRun k core h) (ps.map pipeStage) m c s).2.trace
-        = coreInputs s.trace ++ [pipeOut ps m c] := by
+        = coreInputs s.trace ++ pipeCore k (pipeOut ps m c) := by
   intro ps
   induction ps with
   | nil =>
     intro m c s
-    simp [specNext, coreRun, enters_append, coreInputs_append, enters, coreInputs, pipeEnters,
-      pipeOut]
+    by_cases hr : routed k m.op = true
+    · simp [specNext, coreRun, hr, enters_append, coreInputs_append, enters, coreInputs, pipeEnters,
+        pipeOut, pipeCore]
+    · simp [specNext, coreRun, hr, pipeEnters, pipeOut, pipeCore]
   | cons p ps ih =>
     intro m c s
-    obtain ⟨h1, h2⟩ := ih (p.2.1.app m) (p.2.2.app c)
-      ((s.log (.enter p.1 m c)).log (.call p.1 (p.2.1.app m) (p.2.2.app c)))
+    obtain ⟨h1, h2⟩ := ih (pipeMsg p m) (p.2.2.2.app c)
+      ((s.log (.enter p.1 m c)).log (.call p.1 (pipeMsg p m) (p.2.2.2.app c)))
     simp only [List.map_cons, specNext]
     rw [runStage_pipe]
     simp only [St.log_trace, enters_append, coreInputs_append, h1, h2]
